@@ -174,7 +174,7 @@ impl Scenario for ImageScenario {
                     .n(&[rng.range(0, 20), rng.range(1, 255)])
                     .fault("src", gen_benign(rng, 64)),
                 8 => Op::new("MagicPrefix")
-                    .n(&[rng.range(0, 21), rng.range(0, 7)])
+                    .n(&[rng.range(0, 21), rng.range(0, 9)])
                     .fault("src", gen_benign(rng, 64)),
                 _ => Op::new("ReadFull")
                     .fault("src", gen_benign(rng, 4096))
@@ -315,6 +315,25 @@ impl Scenario for ImageScenario {
                             }
                             v
                         }
+                        8 => {
+                            // a header of the right length that is valid UTF-8 and ends in a
+                            // multi-byte character (another product version, "0.é"), body intact
+                            let tail = ["é", "あ", "😀", "0é", "éé"][n % 5];
+                            let keep = magic().len().saturating_sub(tail.len());
+                            let mut v = magic()[..keep].to_vec();
+                            v.extend_from_slice(tail.as_bytes());
+                            v.extend_from_slice(&image[magic().len()..]);
+                            v
+                        }
+                        9 => {
+                            // a short foreign stream (shorter than the header, not a prefix of it)
+                            let shorts: [&[u8]; 6] = [&[0], b"hello", &[0x28, 0xb5, 0x2f, 0xfd], b"VibratoTokenizer 0.4", &[0xff; 20], b"V\n"];
+                            let mut v = shorts[n % shorts.len()].to_vec();
+                            if magic().starts_with(&v) {
+                                v[0] ^= 0x20;
+                            }
+                            v
+                        }
                         5 => vec![0u8; image.len()], // a zero-filled file
                         6 => {
                             // some other file: seeded bytes that do not start like the magic
@@ -402,7 +421,7 @@ impl Scenario for ImageScenario {
     fn describe(&self) -> ScenarioInfo {
         ScenarioInfo {
             level: "fault_enumeration",
-            rule: "enumerated: every strict prefix length k in [0,len) of each image (connector kind x user lexicon x mapper) is read and must be rejected, plus all 21x255 single-byte substitutions of the magic, every proper prefix of the magic, the 0.4 magic and the magic-less payload; seeded: plans of 2-7 fault operations (torn write at offset k then restart+read, reader hard error at k, prefix read through short/EINTR reads, foreign headers, full-image positive control) over a seeded world. Added later: a tail enumeration (every prefix of the last ~6000 bytes of 96 further images whose last feature is 0-3900 bytes long); magic substitutions also read through a 3-byte-chunked reader; foreign streams in the seeded runs: a byte inserted into / lost from the header with the body intact, zero-filled files, seeded garbage, an old-version header over a rotated body; 1 world in 12 has an empty unk.def. distinct_nontrivial = distinct enumerated (image,offset) cases + distinct plan hashes of seeded runs with >= 1 checked read",
+            rule: "enumerated: every strict prefix length k in [0,len) of each image (connector kind x user lexicon x mapper) is read and must be rejected, plus all 21x255 single-byte substitutions of the magic, every proper prefix of the magic, the 0.4 magic and the magic-less payload; seeded: plans of 2-7 fault operations (torn write at offset k then restart+read, reader hard error at k, prefix read through short/EINTR reads, foreign headers, full-image positive control) over a seeded world. Added later: a tail enumeration (every prefix of the last ~6000 bytes of 96 further images whose last feature is 0-3900 bytes long); magic substitutions also read through a 3-byte-chunked reader; foreign streams in the seeded runs: a byte inserted into / lost from the header with the body intact, zero-filled files, seeded garbage, an old-version header over a rotated body; 1 world in 12 has an empty unk.def. Round 5: headers that are valid UTF-8 and end in a multi-byte character, short foreign streams (1-20 bytes that are not a prefix of the magic). distinct_nontrivial = distinct enumerated (image,offset) cases + distinct plan hashes of seeded runs with >= 1 checked read",
             assumptions: vec![
                 "bit flips inside an otherwise complete image are out of scope (the format has no checksum)",
                 "allocation failure is not injected (aborts the process)",
